@@ -126,6 +126,8 @@ def sweep(s, ro, state_xml, ctx=None, after=None):
 
 def replay_state(s, data):
     w = data['witness']
+    if w.get('type') == 'two-ros':
+        return judge_two(s, w['a'], w['b'], w.get('n', 0), w.get('timing', 'timed'), w.get('again', True))
     if w.get('type') != 'state':
         from . import common as K
         return K.replay_transition(s, data)
@@ -157,12 +159,17 @@ def interleaved(s, i, timing='timed'):
         return B.ro_doc('RO', 1, stories, ed_start=rng.choice(['2020-01-01T12:30:00', '2021-06-01T08:00:05']))
     ta = make(names)
     tb = make(rng.sample(names, n) + ['QX'])
+    judge_two(s, ta, tb, n, timing, rng.random() < 0.5)
+
+
+def judge_two(s, ta, tb, n, timing, again):
+    from ..contracts import ref_story_table, _child, feq
     ra, rb = s.load(ta), s.load(tb)
     sa = ra.stories
     sb = rb.stories
     _ = [x.offset for x in sb]
     sa2 = None
-    if rng.random() < 0.5:
+    if again:
         sa2 = rb.duration      # anything that lists B again
     try:
         got = [(x.id, x.offset, x.start_time, x.end_time, x.duration) for x in sa]
@@ -176,7 +183,7 @@ def interleaved(s, i, timing='timed'):
     if isinstance(got, Exception):
         if s.prop == 'C15':
             s.custom_violation('accessor-raised', {'accessor': 'Story.* (held across another listing)',
-                                                   'exc': type(got).__name__}, {'type': 'two-ros', 'a': ta, 'b': tb},
+                                                   'exc': type(got).__name__}, {'type': 'two-ros', 'a': ta, 'b': tb, 'n': n, 'timing': timing, 'again': again},
                                msg_kind='Story.offset', status='interleaved')
         return
     if not tab['all_timed'] or not tab['unique']:
@@ -187,5 +194,5 @@ def interleaved(s, i, timing='timed'):
             s.custom_violation('story-values-change-when-another-running-order-is-listed',
                                {'story': gid, 'got': repr((goff, gst, gen_))[:200],
                                 'want': repr((row['offset'], row['start'], row['end']))[:200]},
-                               {'type': 'two-ros', 'a': ta, 'b': tb}, msg_kind='Story.offset@ro', status='interleaved')
+                               {'type': 'two-ros', 'a': ta, 'b': tb, 'n': n, 'timing': timing, 'again': again}, msg_kind='Story.offset@ro', status='interleaved')
             return
